@@ -5,7 +5,10 @@
 
 /* QString: id = uninterpreted content identity (equal ids <=> equal text, for non-empty text);
  * isnull distinguishes the null string (which is also empty); len = number of UTF-16 units. */
-typedef struct { int isnull; int id; int len; int tag; } QString;
+#ifndef QSTRING_EXTRA_FIELDS
+#define QSTRING_EXTRA_FIELDS
+#endif
+typedef struct { int isnull; int id; int len; int tag; QSTRING_EXTRA_FIELDS } QString;
 #define QSTRING_VALID(s) (IS_BOOL((s).isnull) && (s).len >= 0 && (!(s).isnull || (s).len == 0))
 /* Qt: operator== compares text; a null string equals an empty one */
 #define QSTRING_EQ(a, b) (((a).len == 0 && (b).len == 0) || ((a).len == (b).len && (a).id == (b).id))
@@ -18,7 +21,10 @@ static inline QString QString_literal(int id, int len) { QString s; s.isnull = 0
 static inline BOOL op_eq__QString_QString(QString a, QString b) { return QSTRING_EQ(a, b); }
 static inline BOOL op_ne__QString_QString(QString a, QString b) { return !QSTRING_EQ(a, b); }
 
-typedef struct { int isnull; int id; int len; int owner; } QByteArray;
+#ifndef QBYTEARRAY_EXTRA_FIELDS
+#define QBYTEARRAY_EXTRA_FIELDS
+#endif
+typedef struct { int isnull; int id; int len; int owner; QBYTEARRAY_EXTRA_FIELDS } QByteArray;
 static inline QByteArray QByteArray_ctor(void) { QByteArray s; s.isnull = 1; s.id = 0; s.len = 0; s.owner = 0; return s; }
 
 /* QVariant / QVariantHash: identity of the (immutable) value */
@@ -47,6 +53,7 @@ static inline QVariant QVariantHash_value__QString(QVariantHash self, QString ke
 { QVariant v; v.id = __CPROVER_uninterpreted_hash_value(self.id, QSTRING_KEY(key)); return v; }
 static inline BOOL QVariantHash_isEmpty(QVariantHash self) { return __CPROVER_uninterpreted_hash_size(self.id) == 0; }
 
+#ifndef VERIF_OWN_QSTRINGLIST
 /* abstract QList<QString> (also QStringList): length only, elements nondeterministic */
 typedef struct { int n; } QList_QString;
 typedef QList_QString QStringList;
@@ -63,7 +70,8 @@ static inline QString QList_QString_const_iterator_op_deref(QList_QString_const_
 { __CPROVER_assert(0 <= it.i && it.i < it.n, "QList<QString>::const_iterator dereferenced inside [begin,end)");
   QString s; s.isnull = 0; s.id = nondet_int(); s.len = nondet_int(); s.tag = 0; __CPROVER_assume(s.len >= 0); return s; }
 
-typedef struct { long long msecs; int valid; } QDateTime;
+#endif /* VERIF_OWN_QSTRINGLIST */
+typedef struct { long long msecs; int valid; long long jd; } QDateTime;   /* jd: the calendar day (local time) of msecs */
 typedef struct { long long jd; } QDate;
 typedef struct { long long ticks; } steady_time_point;
 
